@@ -410,8 +410,17 @@ def check_1d_index(rec: core.Recorder, *, op: str, pre: dict, index, result, exc
                 if r["underflow"] == "nan" or r["overflow"] == "nan":
                     fail("contiguous slice lost the under/overflow bookkeeping (NaN)", ["underflow", "overflow"])
                 else:
-                    eu = pre["underflow"] + float(f[:start].astype(float).sum())
-                    eo = pre["overflow"] + float(f[stop:].astype(float).sum())
+                    if f.dtype.kind in "iu" and float(pre["underflow"]).is_integer() and float(pre["overflow"]).is_integer():
+                        # one rounding only (the snapshot holds floats): exact integer sums first
+                        try:
+                            bu, bo = (int(h.underflow), int(h.overflow)) if h is not None else (int(pre["underflow"]), int(pre["overflow"]))
+                        except (TypeError, ValueError, OverflowError):
+                            bu, bo = int(pre["underflow"]), int(pre["overflow"])
+                        eu = float(bu + int(f[:start].astype(object).sum() if start else 0))
+                        eo = float(bo + int(f[stop:].astype(object).sum() if stop < n else 0))
+                    else:
+                        eu = pre["underflow"] + float(f[:start].astype(float).sum())
+                        eo = pre["overflow"] + float(f[stop:].astype(float).sum())
                     if r["underflow"] != eu or r["overflow"] != eo:
                         fail("contents cut off by a contiguous slice were not added to underflow / overflow", ["underflow", "overflow"],
                              got=[r["underflow"], r["overflow"]], expected=[eu, eo])
